@@ -1,7 +1,7 @@
 (* C02 — ordering agrees with each ecosystem (npm, Cargo, Go part: SemVer 2.0.0 precedence).
    PyPI, Maven, RubyGems, NuGet are in C02_*.v.  Statements only. *)
 From DepsDev Require Import Lib.Base Semver.Version Semver.Compare Semver.Compare_proofs
-  Semver.Parse Spec.SemverSpec Semver.SemverSpec_proofs.
+  Semver.Parse Spec.SemverSpec Semver.SemverSpec_proofs Semver.ParseRender_proofs Semver.StrictParse_proofs.
 
 (* On every pair of parsed structures that are strict SemVer (three numbers, prerelease
    identifiers of the strict grammar) and whose numeric identifiers fit int64, the library's
@@ -50,3 +50,35 @@ Example C02_semver_example :
   | _, _ => False
   end.
 Proof. vm_compute. repeat split; try (eexists; reflexivity); reflexivity. Qed.
+
+(* ---------------------------------------------------------------- the string level *)
+(* Every string of the strict SemVer 2.0.0 grammar (Spec/SemverSpec.v parse_strict) whose three
+   numbers are below 2^63-1 is accepted by the model parser of Default, Cargo, NPM, and with the
+   mandatory v prefix by Go (pfx S is that prefix, empty for the others); the parsed structure
+   abstracts to the spec's value.  All byte strings, no length bound. *)
+Theorem C02_strict_parses : forall S s sv, semver_sys S -> parse_strict s = Some sv ->
+  Forall (fun n => (n < infinity)%Z) (sv_nums sv) ->
+  exists v, parse S (pfx S ++ s) = Ok v /\
+            abs_version v = Some {| sv_nums := sv_nums sv; sv_pre := sv_pre sv; sv_build := [] |}.
+Proof. exact strict_parses. Qed.
+Print Assumptions C02_strict_parses.
+
+(* Hence, on strict strings whose numeric identifiers fit int64, parsing and comparing in the
+   library IS SemVer 2.0.0 precedence of the two strings. *)
+Theorem C02_semver_strings : forall S a b sa sb, semver_sys S ->
+  parse_strict a = Some sa -> parse_strict b = Some sb -> fits_int64 sa -> fits_int64 sb ->
+  exists va vb, parse S (pfx S ++ a) = Ok va /\ parse S (pfx S ++ b) = Ok vb /\
+                generic_compare S va vb = precedence sa sb.
+Proof. exact semver_strings. Qed.
+Print Assumptions C02_semver_strings.
+
+Example C02_semver_strings_example :
+  exists sa sb, parse_strict [49;46;48;46;48;45;97;108;112;104;97;46;49]%N = Some sa /\
+                parse_strict [49;46;48;46;48;45;97;108;112;104;97;46;98;101;116;97;43;98]%N = Some sb /\
+                fits_int64 sa /\ fits_int64 sb /\ semver_sys SGo /\ precedence sa sb = (-1)%Z.
+Proof.
+  eexists. eexists. split; [vm_compute; reflexivity|]. split; [vm_compute; reflexivity|].
+  split; [split; [repeat constructor | intros n [H|[H|[]]]; inversion H; subst; vm_compute; discriminate]|].
+  split; [split; [repeat constructor | intros n [H|[H|[]]]; inversion H]|].
+  split; [unfold semver_sys; auto | reflexivity].
+Qed.
